@@ -152,6 +152,15 @@ class ResolveAnchorIds(Transform):
             self.document, "myst_slugs", {}
         )
 
+        # the ids of the nodes that are actually part of the document
+        # (a directive can discard its parsed content, e.g. a figure with an
+        # invalid caption, after the targets inside it have been registered)
+        tree_ids = {
+            id_
+            for node in findall(self.document)(nodes.Element)
+            for id_ in node["ids"]
+        }
+
         # gather explicit references
         # this follows the same logic as Sphinx's StandardDomain.process_doc
         explicit: dict[str, tuple[str, None | str]] = {}
@@ -159,9 +168,7 @@ class ResolveAnchorIds(Transform):
             if not is_explicit:
                 continue
             labelid = self.document.nameids[name]
-            if labelid is None:
-                continue
-            if labelid is None:
+            if labelid is None or labelid not in tree_ids:
                 continue
             node = self.document.ids[labelid]
             if isinstance(node, nodes.target) and "refid" in node:
@@ -229,7 +236,7 @@ class ResolveAnchorIds(Transform):
                 continue
 
             # now search implicit
-            if target in slugs:
+            if target in slugs and slugs[target][1] in tree_ids:
                 _, sect_id, implicit_title = slugs[target]
                 refnode["refid"] = sect_id
                 if not refnode.children and implicit_title:
